@@ -210,7 +210,7 @@ CLAIMED["C02"] = {
 }
 
 CLAIMED["C03"] = {
-    "level": "model_checking",
+    "level": "translation_validation",
     "text": ("SqlScope.tla is a resolver for PostgreSQL name resolution (query levels with their WITH lists, recursive CTEs visible to their own body, SELECT frames collecting FROM items, "
              "the LATERAL rule for FROM subqueries, correlated subqueries, DML targets / RETURNING / EXCLUDED, ORDER BY tails, CTE column-list arity, parameters, DML only for updating "
              "queries).  The harness linearises the pgsql syntax tree the real translator returns for every corpus query into the resolver's events (it knows the shape of the tree, "
